@@ -155,6 +155,7 @@ class Live(JupyterMixin, RenderHook):
             if not self._started:
                 return
             self._started = False
+            vertical_overflow = self.vertical_overflow
             try:
                 if self.auto_refresh and self._refresh_thread is not None:
                     self._refresh_thread.stop()
@@ -171,6 +172,9 @@ class Live(JupyterMixin, RenderHook):
 
             if self.transient:
                 self.console.control(self._live_render.restore_cursor())
+            # nothing of this display may be erased or cropped differently by a later start()
+            self._live_render._shape = None
+            self.vertical_overflow = vertical_overflow
             if self.ipy_widget is not None:  # pragma: no cover
                 if self.transient:
                     self.ipy_widget.close()
